@@ -142,7 +142,23 @@ func (e *Engine) fmtArg(fr *frame, out *fmtOut, spec string, verb byte, arg V) {
 			out.str(fmt.Sprintf(hv, h))
 			return
 		}
-	case KSym, KSymFloat:
+	case KSym:
+		// few feasible values: fork over them and print the concrete number
+		if n, ok := e.tryConcretize(v.term(), 16); ok {
+			w, signed, _ := basicInfo(it.T)
+			if h, ok := e.hostScalar(it.T, vUint(norm(n, w, signed))); ok {
+				hv := spec
+				if verb == 'w' {
+					hv = "%v"
+				}
+				out.str(fmt.Sprintf(hv, h))
+				return
+			}
+		}
+		out.str("<sym>")
+		out.opaque = true
+		return
+	case KSymFloat:
 		out.str("<sym>")
 		out.opaque = true
 		return
